@@ -157,7 +157,18 @@ func callResultNonNil(p *Prog, fi *FnInfo, call *ssa.Call, k int, at ssa.Instruc
 			ok := false
 			if ex, isEx := rv.(*ssa.Extract); isEx {
 				if c2, isC := ex.Tuple.(*ssa.Call); isC {
-					ok, _ = callResultNonNil(p, hfi, c2, ex.Index, r)
+					// `x, err := g(); return x, err`: x is non-nil whenever err is nil if g guarantees it
+					passThrough := false
+					if hasErr {
+						if ee, isE := r.Results[nres-1].(*ssa.Extract); isE && ee.Tuple == ssa.Value(c2) && ee.Index == c2.Common().Signature().Results().Len()-1 {
+							passThrough = true
+						}
+					}
+					if passThrough {
+						ok = calleeReturnsFresh(p, c2, ex.Index, 0)
+					} else {
+						ok, _ = callResultNonNil(p, hfi, c2, ex.Index, r)
+					}
 				}
 			} else if c2, isC := rv.(*ssa.Call); isC {
 				ok, _ = callResultNonNil(p, hfi, c2, 0, r)
@@ -173,4 +184,40 @@ func callResultNonNil(p *Prog, fi *FnInfo, call *ssa.Call, k int, at ssa.Instruc
 		return false, ""
 	}
 	return true, "result of " + shortFn(h) + ", which returns a fresh message on success"
+}
+
+// calleeReturnsFresh: every possibly-successful return of the call's static callee hands back, as
+// result k, an allocation (or, transitively, the fresh result of another such function).
+func calleeReturnsFresh(p *Prog, call *ssa.Call, k int, depth int) bool {
+	h := call.Common().StaticCallee()
+	if h == nil || !inModule(h) || h.Blocks == nil || depth > 3 {
+		return false
+	}
+	h = origin(h)
+	hfi := p.Info(h)
+	nres := h.Signature.Results().Len()
+	hasErr := nres > 0 && isErrorType(h.Signature.Results().At(nres-1).Type())
+	for _, r := range returnsOf(h) {
+		if hasErr && hfi.errIsNil(r.Results[nres-1], r, 0) == no {
+			continue
+		}
+		if k >= len(r.Results) {
+			return false
+		}
+		switch rv := r.Results[k].(type) {
+		case *ssa.Alloc:
+		case *ssa.Extract:
+			c2, isC := rv.Tuple.(*ssa.Call)
+			if !isC || !calleeReturnsFresh(p, c2, rv.Index, depth+1) {
+				return false
+			}
+		case *ssa.Call:
+			if !calleeReturnsFresh(p, rv, 0, depth+1) {
+				return false
+			}
+		default:
+			return false
+		}
+	}
+	return true
 }
